@@ -7,7 +7,7 @@ SPEC = {
         {"bin": "h_wire_codec", "n": {"quick": 240, "thorough": 5000},
          "known_bits": {16: "C03-noncanonical-enum-tag", 32: "C03-dirty-buffer", 64: "C03-decoder-accepts-unencodable-path-index"}},
     ],
-    "rule": "two thirds packet models (every address kind incl. service and unknown 4/8/12/16-byte types, empty / one-hop / standard paths with 1..63 hops per segment and totals up to 79 / unsupported paths, raw / UDP / all ten SCMP kinds, payload sizes 0,1,..,65000 and 65526..65537, 2^17, flow id / traffic class extremes; every third model 'hostile': unrepresentable ids, aliasing tags, oversize fields) through wire_valid / required_size / try_encode_to_vec / try_encode into a 0xff-filled buffer / decode / ChecksumDigest at an odd address; one third byte strings (encoder outputs as is, reserved-bit flips, trailing byte, truncation, wrong PayloadLen, L4 and header bit flips, random address nibbles, random bytes, wrong packet kind) through the decoder and back through the encoder; a case is non-trivial when the encoder resp. decoder accepts; distinct by full case text",
+    "rule": "first a fixed list of boundary-directed models (in addition to n): for EVERY payload kind (raw, UDP, SCMP echo request / reply / unknown, the five SCMP error kinds) total payload sizes 65534 / 65535 / 65536 / 65537 on an empty-path header and 65535 / 65536 on a standard-path header (variable part sized from the implementation's own required_size), error quotes cut at 1232 bytes (whole packet 1231..1234), the two fixed-size traceroute kinds, header sizes 1016 / 1020 / 1024 / 1028 (unsupported path data; standard paths of 77..80 hops with IPv6 hosts) x raw / UDP / echo / error payloads; oracle on the implementation's bytes: HdrLen, PayloadLen and UDP Length read back from the output equal the true sizes as numbers (Spec_C03.length_fields_match); then two thirds packet models (every address kind incl. service and unknown 4/8/12/16-byte types, empty / one-hop / standard paths with 1..63 hops per segment and totals up to 79 / unsupported paths, raw / UDP / all ten SCMP kinds, payload sizes 0,1,..,65000 and 65526..65537, 2^17, flow id / traffic class extremes; every third model 'hostile': unrepresentable ids, aliasing tags, oversize fields) through wire_valid / required_size / try_encode_to_vec / try_encode into a 0xff-filled buffer / decode / ChecksumDigest at an odd address; one third byte strings (encoder outputs as is, reserved-bit flips, trailing byte, truncation, wrong PayloadLen, L4 and header bit flips, random address nibbles, random bytes, wrong packet kind) through the decoder and back through the encoder; a case is non-trivial when the encoder resp. decoder accepts; distinct by full case text",
     "assumptions": ["little-endian target (the byte order of ChecksumDigest::add_slice's 16-bit loads is written out for x86-64/aarch64)",
                     "Rust typing of the model (model_wf): every field within its integer type, ArrayVec capacities"],
 }
